@@ -235,7 +235,27 @@ def run_project(ctx, cells, dep5=False, mp=False, dirs=("d", "e"), root_mode="de
         tree.rmtree(root)
 
 
+CONFLICT_PLACES = ("REUSE.toml", "vendor/lib/REUSE.toml", "a/b/c/REUSE.toml")
+
+
+def check_conflict(ctx, where):
+    root = ctx.fresh_dir()
+    try:
+        d = where.rsplit("/", 1)[0] + "/" if "/" in where else ""
+        tree.write_tree(root, {"a.txt": "x\n", d + "code.c": "int x;\n",
+                               where: 'version = 1\n\n[[annotations]]\npath = "**"\nprecedence = "override"\nSPDX-FileCopyrightText = "2020 Toml"\nSPDX-License-Identifier = "ISC"\n',
+                               ".reuse/dep5": "Format: https://www.debian.org/doc/packaging-manuals/copyright-format/1.0/\n\nFiles: *\nCopyright: x\nLicense: MIT\n"})
+        res, _ = tree.lint_json(root)
+        ctx.count({"conflict": where}, labels=["dep5+toml-conflict"])
+        if res.crash is not None or res.code != 2:
+            ctx.fail({"conflict": where}, f".reuse/dep5 together with {where} must be a usage error (exit 2): {res.brief()}")
+    finally:
+        tree.rmtree(root)
+
+
 def replay(ctx, case):
+    if "conflict" in case:
+        return check_conflict(ctx, case["conflict"] if isinstance(case["conflict"], str) else "REUSE.toml")
     cells = [(k, own, dl, [tuple(o) if o else None for o in opts]) for k, own, dl, opts in case["cells"]]
     run_project(ctx, cells, dep5=case.get("dep5", False), dirs=tuple(case.get("dirs", ("d", "e"))), root_mode=case.get("root_mode", "default"))
 
@@ -295,14 +315,6 @@ def run(ctx):
         "all 30 x 3 dep5 cells",
     ] + (["all 30 x 24^3 three-level cells with a matching table at every level"] if not quick else ["1/64 of the 30 x 24^3 three-level cells (quick)"])
     if ctx.shard == 0:
-        # dep5 and REUSE.toml together must be refused (exit 2)
-        root = ctx.fresh_dir()
-        try:
-            tree.write_tree(root, {"a.txt": "x\n", "REUSE.toml": "version = 1\n",
-                                   ".reuse/dep5": "Format: https://www.debian.org/doc/packaging-manuals/copyright-format/1.0/\n\nFiles: *\nCopyright: x\nLicense: MIT\n"})
-            res, _ = tree.lint_json(root)
-            ctx.count("conflict", labels=["dep5+toml-conflict"])
-            if res.crash is not None or res.code != 2:
-                ctx.fail({"conflict": True}, f".reuse/dep5 together with REUSE.toml must be a usage error (exit 2): {res.brief()}")
-        finally:
-            tree.rmtree(root)
+        # dep5 and REUSE.toml together must be refused (exit 2), wherever the REUSE.toml lies
+        for where in CONFLICT_PLACES:
+            check_conflict(ctx, where)
